@@ -158,7 +158,7 @@ class Conv:
                 return {'t': 'list', 'addr': a, 'items': [r[0] for r in runs for _ in range(r[1])]}
             return {'t': 'list', 'addr': a, 'items': [self.deep(x, seen, depth + 1) for x in v]}
         if type(v) is dict:
-            if any(type(k) is not str for k in v):
+            if any(not _key_ok(k) for k in v):
                 return {'t': 'opaque', 'type': 'dict-with-non-str-keys'}
             a = self.address(v)
             if a in seen:
@@ -168,9 +168,9 @@ class Conv:
                 # long dicts: keys/values summarised (only used around the size cap)
                 items = list(v.items())
                 return {'t': 'dict', 'addr': a, 'n': len(v),
-                        'head': [[common.cps(k), self.deep(x, seen, depth + 1)] for k, x in items[:3]],
-                        'tail': [[common.cps(k), self.deep(x, seen, depth + 1)] for k, x in items[-3:]]}
-            return {'t': 'dict', 'addr': a, 'items': [[common.cps(k), self.deep(x, seen, depth + 1)] for k, x in v.items()]}
+                        'head': [[_key(k), self.deep(x, seen, depth + 1)] for k, x in items[:3]],
+                        'tail': [[_key(k), self.deep(x, seen, depth + 1)] for k, x in items[-3:]]}
+            return {'t': 'dict', 'addr': a, 'items': [[_key(k), self.deep(x, seen, depth + 1)] for k, x in v.items()]}
         return {'t': 'opaque', 'type': type(v).__module__ + '.' + type(v).__qualname__}
 
     # -- initial heap: host-supplied objects --------------------------------------
@@ -206,18 +206,18 @@ class Conv:
                 heap[a - 1] = {'t': 'list', 'items': items}
                 return {'t': 'list', 'addr': a}
             if type(v) is dict:
-                if any(type(k) is not str for k in v):
+                if any(not _key_ok(k) for k in v):
                     return {'t': 'opaque', 'type': 'dict-with-non-str-keys'}
                 if id(v) in self.addr:
                     return {'t': 'dict', 'addr': self.addr[id(v)]}
                 a = self.address(v)
                 heap.append(None)
                 ks = list(v)
-                if len(ks) >= 64 and ks == ['k%d' % i for i in range(len(ks))] and len(set(map(repr, v.values()))) == 1:
+                if len(ks) >= 64 and all(type(k) is str for k in ks) and ks == ['k%d' % i for i in range(len(ks))] and len(set(map(repr, v.values()))) == 1:
                     # long uniform host dicts {"k0": x, "k1": x, ...} travel as a bulk record
                     heap[a - 1] = {'t': 'dict', 'kbulk': len(ks), 'v': ref(v[ks[0]])}
                     return {'t': 'dict', 'addr': a}
-                heap[a - 1] = {'t': 'dict', 'items': [[common.cps(k), ref(x)] for k, x in v.items()]}
+                heap[a - 1] = {'t': 'dict', 'items': [[_key(k), ref(x)] for k, x in v.items()]}
                 return {'t': 'dict', 'addr': a}
             return {'t': 'opaque', 'type': type(v).__qualname__}
 
@@ -242,6 +242,15 @@ class Conv:
 KINDS = [('NoOp', 'noop'), ('ValueOp', 'val'), ('CodeOp', 'code'), ('BinOp', 'bin'), ('UnaryOp', 'un'),
          ('AssignOp', 'assign'), ('ShortOp', 'short'), ('NameOp', 'name'), ('IfExprOp', 'if'),
          ('SliceOp', 'slice'), ('CallOp', 'call'), ('DictOp', 'dict'), ('LambdaOp', 'lambda')]
+
+def _key_ok(k):
+    return type(k) is str or (type(k) is int and abs(k) < 10 ** 15)
+
+
+def _key(k):
+    """Dict key as the specification writes it: text = its code points; int key = <<-2>> o code points of str(key)."""
+    return common.cps(k) if type(k) is str else [-2] + common.cps(str(k))
+
 
 ORACLE_BUILTINS = ('rand', 'shuffle', 'match', 'match_groups', 'match_all', 'float')
 
